@@ -324,7 +324,11 @@ impl ParsedParameters {
 
                 OpParameter::Text { key, default } => {
                     if let Some(value) = chase(globals, &locals, key)? {
-                        // should chase!
+                        // Ellipsoids are looked up (and unwrapped) by `ellps()`,
+                        // so an unknown ellipsoid must be refused here
+                        if key == "ellps" || key.starts_with("ellps_") {
+                            Ellipsoid::named(&value)?;
+                        }
                         text.insert(key, value.to_string());
                         continue;
                     }
